@@ -61,7 +61,7 @@ FIELD_OPS = [
     "dangling_input", "dup_output", "empty_name", "drop_type", "shuffle_nodes", "self_cycle", "bad_dtype", "bad_attr_type", "bad_dims", "ext_location",
     "ext_numbers", "dup_initializer", "dup_function", "dangling_output", "dup_graph_input", "dangling_device", "deep_nesting", "dup_value_info",
     "tensor_metadata", "missing_opset", "ref_attr", "sparse", "quant", "negative_dims", "string_tensor", "input_is_output", "sub_output_outer", "sub_output_outer", "sub_input_outer", "sub_init_outer", "output_is_initializer", "output_is_initializer",
-    "function_identity", "function_identity", "func_inner_shadow", "func_inner_shadow", "dup_keyed", "dup_keyed",
+    "function_identity", "function_identity", "func_inner_shadow", "func_inner_shadow", "dup_keyed", "dup_keyed", "storage_field", "storage_field", "quant",
 ]  # fmt: skip
 _IGNORED_PREFIXES = tuple(p for p in {sys.prefix, sys.base_prefix, "/repo", "/verif", "/venv", "/root/.pyenv", "/usr/lib/python3", "/usr/lib/python3.12", "/proc/self"} if p)
 
@@ -374,6 +374,29 @@ def damage_fields(p: onnx.ModelProto, opsl: list) -> None:
                         vo.type.tensor_type.elem_type = 1
                     if (c >> 9) % 3:
                         p.ir_version = [8, 9][(c >> 11) % 2]
+        elif kind == "storage_field" and g.initializer:
+            # the payload moved from raw_data into a typed storage field - with the right or a wrong element count, or
+            # into a field that does not belong to the declared element type, or into two fields at once
+            t = g.initializer[c % len(g.initializer)]
+            n_el = 1
+            for d_ in t.dims:
+                n_el *= d_
+            how = (c >> 3) % 5
+            if t.data_type == onnx.TensorProto.FLOAT and 0 < n_el < 10000:
+                vals = [float(i_ % 7) for i_ in range(n_el)]
+                if how != 4:
+                    t.ClearField("raw_data")
+                if how == 0:
+                    t.float_data.extend(vals)
+                elif how == 1:
+                    t.float_data.extend(vals[: max(0, n_el - 1)])
+                elif how == 2:
+                    t.int32_data.extend([int(v_) for v_ in vals])
+                elif how == 3:
+                    t.data_type = [onnx.TensorProto.INT64, onnx.TensorProto.DOUBLE, onnx.TensorProto.FLOAT16, onnx.TensorProto.BOOL, onnx.TensorProto.UINT4][(c >> 6) % 5]
+                    (t.int64_data if t.data_type == onnx.TensorProto.INT64 else t.double_data if t.data_type == onnx.TensorProto.DOUBLE else t.int32_data).extend([int(v_) for v_ in vals])
+                else:
+                    t.float_data.extend(vals)  # raw_data AND float_data
         elif kind == "dup_keyed":
             # the same key twice in a repeated field that ir-py reads into a mapping (opset imports under both spellings
             # of the default domain, metadata keys, attribute names): whatever wins, one more round trip must agree
@@ -438,9 +461,15 @@ def damage_fields(p: onnx.ModelProto, opsl: list) -> None:
             sp.dims.append(5)
         elif kind == "quant":
             q = g.quantization_annotation.add()
-            q.tensor_name = "no_such"
+            # on a name that exists (graph input, initializer, node output) or on none; twice for the same name
+            real = [vi.name for vi in g.input] + [t.name for t in g.initializer] + [o for n2 in g.node for o in n2.output if o]
+            q.tensor_name = real[c % len(real)] if (real and c % 4) else "no_such"
             kv = q.quant_parameter_tensor_names.add()
-            kv.key, kv.value = "SCALE_TENSOR", "missing"
+            kv.key, kv.value = "SCALE_TENSOR", (real[(c >> 3) % len(real)] if (real and (c >> 2) % 2) else "missing")
+            if (c >> 6) % 3 == 0:
+                q2 = g.quantization_annotation.add()
+                q2.CopyFrom(q)
+                q2.quant_parameter_tensor_names[0].value = "other"
         elif kind in ("sub_output_outer", "sub_input_outer", "sub_init_outer"):
             # a nested graph declares an output / input / initializer under the name of a value of an enclosing graph
             subs = [x for x in graphs if x is not p.graph]
